@@ -1,6 +1,6 @@
 """C14 — passes honour their contract: identity, modified flag, fixpoint, no damage (DESIGN.md 5/C14).
 
-Four parts, all run on every check:
+Five parts, all run on every check:
 
 A  infrastructure correspondence: random trees of scripted passes (Sequential / PassManager /
    functionalize around user passes whose requires/call/ensures follow a script) are run through the
@@ -12,6 +12,10 @@ B  ``call_onnx_api`` correspondence with fault injection: generated initializer 
    input) x {ok, tensor attribute raises, serialization raises, wrapped call raises}; the proto handed
    to the wrapped call and the world afterwards are compared with ``CApi.callOnnxApi``.  Oracle: the
    model is exactly as before (objects, keys, order, tensors, shapes, types, inputs, ownership flags).
+G  (deepening round) IdentityElimination / CSE / LiftSubgraphInitializers / OutputFix: flag, RESULT model, measure and
+   second application vs `passinfra.flags2` (C05's pass models + the flag transcriptions of Model/PassFlags2.lean);
+   RemoveUnusedOpsets / RemoveUnusedFunctions vs their transcriptions; NameFix vs C15's model `names.fix`;
+   `sortedModel` vs the oracle's is_sorted.  Every clause of the new theorems is also evaluated on the real objects.
 C  every built-in pass and random PassManager compositions on generated models: identity,
    modified=False => same bytes, rounds until modified=False <= size+1 and one more application changes
    nothing, use-def/ownership checker, sorted stays sorted, names kept; concrete flag models
@@ -78,6 +82,30 @@ THEOREMS = [
     "IrVerif.PassInfra.CApi.C14_shape_inference_raise_unchanged",
     "IrVerif.PassInfra.CApi.C14_shape_merge_flag",
     "IrVerif.PassInfra.CApi.C14_shape_inference_flag",
+    # deepening round: flag / fix-point / measure of further built-in passes
+    "IrVerif.PassInfra.C14_pure_rounds",
+    "IrVerif.PassInfra.C14_idempotent_rounds",
+    "IrVerif.PassInfra.C14_flag_identity",
+    "IrVerif.PassInfra.C14_measure_identity",
+    "IrVerif.PassInfra.C14_fix_identity",
+    "IrVerif.PassInfra.C14_rounds_identity",
+    "IrVerif.PassInfra.C14_flag_cse",
+    "IrVerif.PassInfra.C14_measure_cse_partial",
+    "IrVerif.PassInfra.C14_measure_cse_weighted_partial",
+    "IrVerif.PassInfra.C14_flag_lift_sub_inits",
+    "IrVerif.PassInfra.C14_fix_lift_sub_inits",
+    "IrVerif.PassInfra.C14_measure_lift_sub_inits",
+    "IrVerif.PassInfra.C14_flag_output_fix",
+    "IrVerif.PassInfra.C14_fix_output_fix",
+    "IrVerif.PassInfra.C14_measure_output_fix",
+    "IrVerif.PassInfra.C14_flag_namefix",
+    "IrVerif.PassInfra.C14_fix_namefix",
+    "IrVerif.PassInfra.C14_unused_opsets_contract",
+    "IrVerif.PassInfra.C14_unused_functions_flag",
+    "IrVerif.PassInfra.C14_unused_functions_measure",
+    "IrVerif.PassInfra.C14_fix_unused_functions",
+    "IrVerif.PassInfra.C14_keeps_sorted_delete",
+    "IrVerif.PassInfra.C14_keeps_sorted_subst",
 ]
 ASSUMPTIONS = [
     "passes are modelled as arbitrary functions of an abstract world (identity rule, manager flag, honesty of "
@@ -85,11 +113,23 @@ ASSUMPTIONS = [
     "ClearMetadataAndDocString, Remove/AddInitializers{From,To}Inputs, RemoveUnusedNodes (flat: own model; nested "
     "graphs + functions: count next to C05's dceModel), LiftConstantsToInitializers and Deduplicate(Hashed)Initializers "
     "(counts next to C05's models), the TopologicalSort flag (on C12's passEffect) and the ShapeInference merge",
-    "NO theorem (oracle only, on generated models): flag honesty / fixpoint / measure of NameFix, CSE, Inline, OutputFix, "
-    "IdentityElimination, LiftSubgraphInitializers, AddDefaultAttributes, RemoveUnusedFunctions, RemoveUnusedOpsets and of "
-    "the schema-driven optional-output removal inside RemoveUnusedNodes; use-def/ownership consistency after a pass; "
-    "'sorted stays sorted' for passes other than TopologicalSort; 'names needed for serialization are kept'; "
-    "no theorem is about serialized bytes (the observation `obs` of the honesty/fixpoint theorems is abstract)",
+    "deepening round: flag honesty (False => same model value), idempotence and a decreasing measure are theorems for "
+    "IdentityElimination, LiftSubgraphInitializers, OutputFix (flag transcriptions Model/PassFlags2.lean next to C05's "
+    "pass models; idempotence of IdentityElimination under C05's validModel + 'Identity nodes hold no graphs', both "
+    "evaluated by the driver on every case), NameFix (C15's fixModel; idempotence under C15's PassWF, evaluated), "
+    "RemoveUnusedOpsets and RemoveUnusedFunctions (own transcriptions); for CSE flag honesty is a theorem, the measure is "
+    "PARTIAL (weighted node count strictly decreases unless a one-output Identity node is replaced by another Identity "
+    "node - `cseStalled`, evaluated and counted) and idempotence is false (3 equal nodes at the outputs need 2 rounds); "
+    "'ordered stays ordered' (C05's noFwdG for all graphs = `sortedModel`, compared with the oracle's is_sorted on "
+    "ordered and unordered models) is a theorem for RemoveUnusedNodes, LiftConstants, LiftSubgraphInitializers, "
+    "Remove/AddInitializers{From,To}Inputs, IdentityElimination and Deduplicate(Hashed)Initializers (the last under ssaG)",
+    "NO theorem (oracle only, on generated models): flag honesty / fixpoint / measure of Inline, AddDefaultAttributes and of "
+    "the schema-driven optional-output removal inside RemoveUnusedNodes; the CSE measure in rounds with a stalled Identity "
+    "rewrite; use-def/ownership consistency after a pass; 'ordered stays ordered' for CSE, OutputFix, Inline, "
+    "AddDefaultAttributes; 'names needed for serialization are kept' (for NameFix it follows from C15_namefix_post); "
+    "no theorem is about serialized bytes (the theorems speak about the model value of C05's IR - structure and value "
+    "identities, not names / shapes / types / metadata - resp. about every name and initializer key for NameFix); "
+    "C05's and C15's models are imported read-only and are tied to the real passes (flag AND result) on every run",
     "C14_rounds/C14_fixpoint(_obs) assume a measure that decreases when modified=True and an honest False flag; both are "
     "proved for the transcribed passes above and checked by the oracle for all others",
     "call_onnx_api / CheckerPass / failed ShapeInference leave the model unchanged EXCEPT tensor.name: serialization "
@@ -1832,6 +1872,7 @@ def flags_case(part: Part, reqs: list, seed: int) -> None:
             }
 
         before_nodes = shape_of_nodes(model)
+        sorted0 = is_sorted(model)
         try:
             res = mk()(model)
         except Exception as e:  # noqa: BLE001
@@ -1842,10 +1883,15 @@ def flags_case(part: Part, reqs: list, seed: int) -> None:
             if any(after_nodes[k] != v for k, v in before_nodes.items() if k in after_nodes):
                 part.count("flags:dce-optional-output-path")  # schema-driven part: not in C05's model
                 continue
+        obs = {"flag": bool(res.modified)}
+        # C14_keeps_sorted_delete / _subst: `sortedModel` before / after against the oracle's notion of "ordered"
+        obs["sorted"], obs["sorted_after"] = sorted0, is_sorted(model)
+        if sorted0 and not obs["sorted_after"]:
+            part.fail(f"flags/{name.split(':')[0]}/order", "a topologically ordered model is no longer ordered", {"flags_seed": seed})
         reqs.append(
             (
                 {"m": "passinfra.flags", "model": mj, "pass": name},
-                {"flag": bool(res.modified)},
+                obs,
                 {"model": "flags", "flags_seed": seed, "pass": name, "source": "c14" if seed % 2 else "c05"},
             )
         )
@@ -2267,6 +2313,327 @@ def boundary_case(part: Part, seed: int, which: str, fault: str) -> None:
     part.case(["boundary", seed, which, fault], True, case if seed % 40 == 0 else None, boundary=f"{which}/{fault}/{out[0]}")
 
 
+
+# =========================================================================== G. deepening round: flag AND result on further models
+#
+# IdentityElimination / CSE / LiftSubgraphInitializers / OutputFix against the flag transcriptions of
+# `Model/PassFlags2.lean` next to C05's pass models (driver `passinfra.flags2`: flag, count, measure, RESULT
+# MODEL, flag of a second application); RemoveUnusedOpsets / RemoveUnusedFunctions against their transcriptions
+# (`passinfra.opsets`, `passinfra.unusedfn`); NameFix against C15's model of the pass (`names.fix`).  Every
+# clause of the new theorems (False => unchanged, second application, measure) is ALSO evaluated on the real
+# objects, independently of the model.
+
+
+def _flags2_special(seed: int):
+    """Small models aimed at the rewrites of OutputFix / CSE / IdentityElimination / LiftSubgraphInitializers:
+    repeated outputs, inputs that are outputs (also in an If branch), equal nodes whose outputs are graph outputs
+    (CSE then has to insert Identity nodes), Identity chains at the outputs, initializers inside branches."""
+    import onnx_ir as ir
+
+    r = random.Random(f"flags2-special:{seed}")
+    F = ir.TensorType(ir.DataType.FLOAT)
+    B = ir.TensorType(ir.DataType.BOOL)
+    cnt = [0]
+
+    def val(prefix="v"):
+        cnt[0] += 1
+        return ir.Value(name=f"{prefix}{cnt[0]}", shape=ir.Shape([2]), type=F)
+
+    def named(n):
+        for o in n.outputs:
+            cnt[0] += 1
+            o.name, o.shape, o.type = f"v{cnt[0]}", ir.Shape([2]), F
+        return n
+
+    def const(name):
+        return ir.Value(name=name, const_value=ir.tensor(np.array([1.0, float(r.randint(0, 1))], dtype=np.float32), name=name),
+                        shape=ir.Shape([2]), type=F)
+
+    inputs = [val("x") for _ in range(r.randint(1, 2))]
+    avail, nodes = list(inputs), []
+    for _ in range(r.randint(1, 6)):
+        k = r.random()
+        if k < 0.35:
+            n = named(ir.node(r.choice(["Relu", "Relu", "Neg"]), [r.choice(avail[: max(1, len(avail) // 2)])]))
+        elif k < 0.6:
+            n = named(ir.node("Identity", [r.choice(avail)]))
+        elif k < 0.8:
+            n = named(ir.node("Add", [r.choice(avail), r.choice(avail)]))
+        else:
+            # If with two branches; a branch may hold an initializer, return an outer value through an Identity,
+            # or list a value twice / a branch input as its outputs
+            branches = []
+            for bi in range(2):
+                w = const(f"w{len(nodes)}_{bi}") if r.random() < 0.6 else None
+                src = w if (w is not None and r.random() < 0.7) else r.choice(avail)
+                bn = named(ir.node(r.choice(["Neg", "Identity", "Relu"]), [src]))
+                outs = [bn.outputs[0]]
+                if r.random() < 0.15 and w is not None:
+                    outs = [w]  # an initializer that is an output of the branch: must not be lifted
+                branches.append(ir.Graph([], outs, nodes=[bn], initializers=[w] if w is not None else [], name=f"b{len(nodes)}_{bi}"))
+            cond = ir.Value(name=f"c{len(nodes)}", const_value=ir.tensor(np.array(True), name=f"c{len(nodes)}"), shape=ir.Shape([]), type=B)
+            n = named(ir.Node("", "If", [cond], [ir.AttrGraph("then_branch", branches[0]), ir.AttrGraph("else_branch", branches[1])], num_outputs=1))
+            n._cond = cond
+        nodes.append(n)
+        avail.append(n.outputs[0])
+    pool = [n.outputs[0] for n in nodes]
+    outs = [r.choice(pool) for _ in range(r.randint(1, 3))]
+    if r.random() < 0.4:
+        outs.append(r.choice(outs))  # a value listed twice
+    if r.random() < 0.4:
+        outs.append(r.choice(inputs))  # an input that is an output
+    if r.random() < 0.5:
+        # equal nodes all of whose outputs are graph outputs
+        src = r.choice(inputs)
+        for _ in range(r.randint(2, 3)):
+            n = named(ir.node("Relu", [src]))
+            nodes.append(n)
+            outs.append(n.outputs[0])
+    inits = [n._cond for n in nodes if hasattr(n, "_cond")]
+    g = ir.Graph(inputs, outs, nodes=nodes, initializers=inits, opset_imports={"": 20}, name="main")
+    return ir.Model(g, ir_version=10)
+
+
+def _cse_weight(model) -> int:
+    """`cseW`: an Identity node with one output weighs 1, every other node 1 + its number of outputs (main graph)."""
+    return sum(1 if (n.op_type == "Identity" and n.domain == "" and len(n.outputs) == 1) else 1 + len(n.outputs) for n in model.graph)
+
+
+def _sub_inits(model) -> int:
+    return sum(len(g.initializers) for g in model.graphs() if g is not model.graph)
+
+
+def flags2_case(part: Part, reqs: list, seed: int) -> None:
+    import onnx_ir as ir
+    import onnx_ir.passes.common as cp
+    from harness import c05
+
+    r = random.Random(f"flags2:{seed}")
+    source = ["c05", "c14", "c05", "special"][seed % 4]
+
+    def build():
+        if source == "c14":
+            return build_model(seed, "plain")
+        if source == "special":
+            return _flags2_special(seed)
+        return ir.serde.deserialize_model(c05.gen_model(random.Random(seed), random.Random(seed + 1).choice([4, 8, 12])))
+
+    lim = r.choice([0, 10, 10, 2000])
+    table = [
+        ("identity", lambda: cp.IdentityEliminationPass(), _m_nodes),
+        (f"cse:{lim}", lambda: cp.CommonSubexpressionEliminationPass(size_limit=lim), lambda m: sum(1 for _ in m.graph)),
+        ("lsi", lambda: cp.LiftSubgraphInitializersToMainGraphPass(), _sub_inits),
+        ("ofix", lambda: cp.OutputFixPass(), None),
+    ]
+    for name, mk, measure in table:
+        base = name.split(":")[0]
+        case = {"flags2_seed": seed, "pass": name, "source": source}
+        try:
+            model = build()
+            mj = c05.Encoder().model(model)
+        except Exception:  # noqa: BLE001 - not expressible in C05's model IR
+            part.count("flags2:unencodable")
+            continue
+        mu0 = measure(model) if measure else None
+        w0 = _cse_weight(model)
+        sorted0 = is_sorted(model)
+        nodes0 = list(model.graph)  # (kept alive: id() is compared below)
+        ids0 = {id(n) for n in nodes0}
+        try:
+            res = mk()(model)
+            after = c05.Encoder().model(model)
+            mu1 = measure(model) if measure else None
+            w1 = _cse_weight(model)
+            sorted1 = is_sorted(model)
+            # "stalled" rewrite of CSE: a one-output Identity node went away and an Identity node came in
+            gone_identity = sum(1 for n in nodes0 if n.graph is None and n.op_type == "Identity" and n.domain == "" and len(n.outputs) == 1)
+            inserted = sum(1 for n in model.graph if id(n) not in ids0)
+            res2 = mk()(model)
+            after2 = c05.Encoder().model(model)
+        except c05.Unencodable:
+            part.count("flags2:unencodable-after")
+            continue
+        except Exception as e:  # noqa: BLE001
+            part.fail(f"flags2/{base}/raised/{type(e).__name__}", f"the pass raised on a valid model: {str(e)[:120]}", case)
+            continue
+        c0, c1, c2 = c05.canon(mj), c05.canon(after), c05.canon(after2)
+        # ---- the clauses of the theorems on the real objects (independent of the Lean model)
+        if not res.modified and c1 != c0:
+            part.fail(f"flags2/{base}/modified-false-but-changed", "modified=False but the structure of the model changed: " + str(c05.first_diff(c1, c0)), case)
+        if res.modified and c1 == c0:
+            part.fail(f"flags2/{base}/modified-true-but-unchanged", "modified=True but the structure of the model is the same", case)
+        if not res2.modified and c2 != c1:
+            part.fail(f"flags2/{base}/second-false-but-changed", "second application: modified=False but the structure changed", case)
+        if base in ("lsi", "ofix") and (res2.modified or c2 != c1):
+            part.fail(f"flags2/{base}/not-idempotent", f"applied to its own result the pass reports modified={res2.modified} / changes it", case)
+        if base in ("identity", "lsi") and res.modified and not mu1 < mu0:
+            part.fail(f"flags2/{base}/measure-not-decreasing", f"modified=True but the measure went {mu0} -> {mu1}", case)
+        if base == "cse" and res.modified and inserted == 0 and not mu1 < mu0:
+            part.fail("flags2/cse/measure-not-decreasing", f"modified=True, no Identity inserted, but #nodes went {mu0} -> {mu1}", case)
+        if base == "cse" and res.modified and (inserted == 0 or gone_identity == 0) and not w1 < w0:
+            part.fail("flags2/cse/weight-not-decreasing", f"modified=True, no Identity node replaced by an Identity node, but the weight went {w0} -> {w1}", case)
+        if sorted0 and not sorted1:
+            part.fail(f"flags2/{base}/order", "a topologically ordered model is no longer ordered", case)
+        obs = {"flag": bool(res.modified), "canon": c1, "flag2": bool(res2.modified), "canon2_same": c2 == c1,
+               "sorted": sorted0, "sorted_after": sorted1}
+        if measure is not None:
+            obs["before"], obs["after"] = mu0, mu1
+        if base == "cse":
+            obs["w_before"], obs["w_after"] = w0, w1
+        reqs.append(({"m": "passinfra.flags2", "model": mj, "pass": name}, obs, {"model": "flags2", **case}))
+        part.case(["flags2", seed, name], bool(res.modified), case if seed % 211 == 0 else None,
+                  **{f"flags2_{base}": f"{source}:flag={bool(res.modified)}", f"flags2_{base}_second": bool(res2.modified)})
+
+
+def sorted_case(part: Part, reqs: list, seed: int) -> None:
+    """`sortedModel` (the notion of "ordered" of C14_keeps_sorted_delete) against the oracle's `is_sorted` on ordered
+    and unordered generated models (shuffled main graphs, shuffled subgraphs, cyclic function references)."""
+    from harness import c05
+
+    flavour = FLAVOURS[seed % len(FLAVOURS)]
+    model = build_model(seed, flavour)
+    try:
+        mj = c05.Encoder().model(model)
+    except Exception:  # noqa: BLE001
+        part.count("sorted:unencodable")
+        return
+    real = is_sorted(model)
+    reqs.append(({"m": "passinfra.sorted", "model": mj}, {"sorted": real}, {"model": "sorted", "sorted_seed": seed, "flavour": flavour}))
+    part.case(["sorted", seed], True, None, sorted_model=f"{flavour}:{real}")
+
+
+def _opset_state(model):
+    import onnx_ir as ir
+
+    def gl(g):
+        return {"imports": list(g.opset_imports), "domains": [n.domain for n in ir.traversal.RecursiveGraphIterator(g)]}
+
+    return {"main": gl(model.graph), "funcs": [{"domain": f.domain, **gl(f)} for f in model.functions.values()]}
+
+
+def opsets_case(part: Part, reqs: list, seed: int) -> None:
+    import onnx_ir.passes.common as cp
+
+    r = random.Random(f"opsets:{seed}")
+    flavour = r.choice(["plain", "messy", "reuse", "cyclic", "plain"])
+    model = build_model(seed, flavour)
+    if r.random() < 0.6:  # make the rewrite fire: imports nobody uses
+        for g in [model.graph, *model.functions.values()]:
+            for d in r.sample(["unused.a", "unused.b", "", "custom", "ai.onnx.ml"], k=r.randint(0, 2)):
+                g.opset_imports.setdefault(d, 1)
+    pf = r.random() < 0.7
+    case = {"opsets_seed": seed, "flavour": flavour, "pf": pf}
+    before = _opset_state(model)
+    try:
+        res = cp.RemoveUnusedOpsetsPass(process_functions=pf)(model)
+        after = _opset_state(model)
+        res2 = cp.RemoveUnusedOpsetsPass(process_functions=pf)(model)
+        after2 = _opset_state(model)
+    except Exception as e:  # noqa: BLE001
+        part.fail(f"opsets/raised/{type(e).__name__}", f"RemoveUnusedOpsetsPass raised: {str(e)[:120]}", case)
+        return
+    imports = lambda st: [st["main"]["imports"]] + [f["imports"] for f in st["funcs"]]  # noqa: E731
+    size = lambda st: sum(len(x) for x in imports(st))  # noqa: E731
+    if not res.modified and imports(after) != imports(before):
+        part.fail("opsets/modified-false-but-changed", "modified=False but some opset_imports changed", case)
+    if res.modified and not size(after) < size(before):
+        part.fail("opsets/measure-not-decreasing", "modified=True but the number of opset imports did not drop", case)
+    if res2.modified or imports(after2) != imports(after):
+        part.fail("opsets/not-idempotent", "applied to its own result the pass changes something / reports True", case)
+    reqs.append((
+        {"m": "passinfra.opsets", "pf": pf, **before},
+        {"modified": bool(res.modified), "main": after["main"]["imports"], "funcs": [f["imports"] for f in after["funcs"]],
+         "flag2": bool(res2.modified), "before": size(before), "after": size(after)},
+        {"model": "opsets", **case},
+    ))
+    part.case(["opsets", seed], bool(res.modified), case if seed % 211 == 0 else None, opsets=f"pf={pf}:flag={bool(res.modified)}")
+
+
+def unusedfn_case(part: Part, reqs: list, seed: int) -> None:
+    import onnx_ir as ir
+    import onnx_ir.passes.common as cp
+
+    r = random.Random(f"unusedfn:{seed}")
+    flavour = r.choice(["plain", "reuse", "cyclic", "plain", "messy"])
+    model = build_model(seed, flavour)
+    case = {"unusedfn_seed": seed, "flavour": flavour}
+    fid = {ident: i for i, ident in enumerate(model.functions)}
+    other: dict = {}
+
+    def op(n):
+        ident = n.op_identifier()
+        return fid[ident] if ident in fid else 10000 + other.setdefault(ident, len(other))
+
+    def calls(g):
+        return [op(n) for n in ir.traversal.RecursiveGraphIterator(g)]
+
+    req = {"m": "passinfra.unusedfn", "main": calls(model.graph),
+           "funcs": [{"id": fid[ident], "calls": calls(f)} for ident, f in model.functions.items()]}
+    n0 = len(model.functions)
+    try:
+        res = cp.RemoveUnusedFunctionsPass()(model)
+        left = [fid[ident] for ident in model.functions]
+        res2 = cp.RemoveUnusedFunctionsPass()(model)
+        left2 = [fid[ident] for ident in model.functions]
+    except Exception as e:  # noqa: BLE001
+        part.fail(f"unusedfn/raised/{type(e).__name__}", f"RemoveUnusedFunctionsPass raised: {str(e)[:120]}", case)
+        return
+    if not res.modified and len(left) != n0:
+        part.fail("unusedfn/modified-false-but-changed", "modified=False but functions were removed", case)
+    if res.modified and not len(left) < n0:
+        part.fail("unusedfn/measure-not-decreasing", "modified=True but no function was removed", case)
+    if res2.modified or left2 != left:
+        part.fail("unusedfn/not-idempotent", "applied to its own result the pass removes more functions / reports True", case)
+    reqs.append((req, {"modified": bool(res.modified), "funcs": left, "flag2": bool(res2.modified)}, {"model": "unusedfn", **case}))
+    part.case(["unusedfn", seed], bool(res.modified), case if seed % 211 == 0 else None,
+              unusedfn=f"flag={bool(res.modified)}", unusedfn_functions=min(n0, 5))
+
+
+def namefix_case(part: Part, reqs: list, seed: int) -> None:
+    """NameFixPass against C15's model of the pass (`names.fix`; the specification generator, the builder of the real
+    objects and the request encoder are C15's, imported read-only) plus this property's clauses on the real objects."""
+    import onnx_ir as ir
+    from harness import c15
+
+    r = random.Random(f"namefix:{seed}")
+    depth = r.choice([0, 1, 1, 2, 2, 3])
+    kind = seed % 5
+    if kind == 0:
+        spec = c15._SpecGen(r, max(depth, 1), wild=0.5, fwd=0.1).spec()
+    elif kind in (1, 2):
+        spec = c15._SpecGen(r, max(depth, 1), wild=0.0, fwd=0.35).spec()
+    elif kind == 3:
+        # already well named: the flag has to be False
+        spec = c15._SpecGen(r, depth, wild=0.0).spec()
+        spec["vnames"] = [f"u{i}" for i in range(len(spec["vnames"]))]
+        spec["nnames"] = [f"m{i}" for i in range(len(spec["nnames"]))]
+        spec["dicts"] = [[[f"u{v}", v] for _k, v in d] for d in spec["dicts"]]
+    else:
+        spec = c15._SpecGen(r, depth, wild=0.0).spec()
+    case = {"namefix_seed": seed}
+    try:
+        before, after, _sb, _sa, raised, modified, second = c15._run_one_fix(ir, spec)
+    except Exception as e:  # noqa: BLE001 - the spec cannot be built as real IR (rejected by constructors)
+        part.count(f"namefix:unbuildable:{type(e).__name__}")
+        return
+    if any(before[k] != spec[k] for k in ("vnames", "nnames", "dicts", "initOf")):
+        part.count("namefix:spec-not-realised")
+        return
+    names = lambda st: (st["vnames"], st["nnames"], st["dicts"])  # noqa: E731
+    if raised is None and not modified and names(after) != names(before):
+        part.fail("pass/NameFix/modified-false-but-changed/spec", "modified=False but a name or an initializer key changed", case)
+    if raised is None and modified and names(after) == names(before):
+        part.fail("pass/NameFix/modified-true-but-nothing-changed/spec", "modified=True but no name and no initializer key changed", case)
+    obs = {"vnames": after["vnames"], "nnames": after["nnames"], "dicts": after["dicts"], "initOf": after["initOf"],
+           "modified": modified, "raised": raised is not None}
+    snd = None
+    if second is not None:
+        snd = {"modified": second[0], "same": second[1] is not None and names(second[1]) == names(after)}
+    reqs.append((c15._fix_request(spec), obs, {"model": "namefix", "second": snd, **case}))
+    part.case(["namefix", seed], bool(modified), case if seed % 211 == 0 else None,
+              namefix="raised" if raised is not None else f"flag={bool(modified)}")
+
+
 # =========================================================================== workers / run
 
 
@@ -2306,6 +2673,16 @@ def _worker(job):
                 flags_case(part, reqs, it)
             elif kind == "sortflag":
                 sortflag_case(part, reqs, it)
+            elif kind == "flags2":
+                flags2_case(part, reqs, it)
+            elif kind == "sorted":
+                sorted_case(part, reqs, it)
+            elif kind == "opsets":
+                opsets_case(part, reqs, it)
+            elif kind == "unusedfn":
+                unusedfn_case(part, reqs, it)
+            elif kind == "namefix":
+                namefix_case(part, reqs, it)
             elif kind == "reuse":
                 reuse_case(part, it)
             elif kind == "funcseq":
@@ -2368,8 +2745,56 @@ def _compare(ctx: Ctx, req: dict, obs: dict, info: dict, out: dict) -> None:
             lp = out.get("proto") or {}
             if [k for k, _t in lp.get("inits", [])] != obs["proto"]["inits"] or lp.get("inputs") != obs["proto"]["inputs"]:
                 ctx.disagree("capi: proto handed to the wrapped call differs", case, lp, obs["proto"])
+    elif m == "flags2":
+        from harness import c05
+
+        base = info["pass"].split(":")[0]
+        ctx.count("concrete:flags2")
+        ctx.count(f"flags2:{base}:valid={out.get('valid')}")
+        if not out.get("valid"):
+            return  # C05's transcriptions are for well-formed (SSA, closed, scoped, ordered) models
+        lean = {"flag": out.get("flag"), "flag2": out.get("flag2"), "canon2_same": out.get("idem"),
+                "sorted": out.get("sorted"), "sorted_after": out.get("sorted_after")}
+        impl = {k: obs[k] for k in lean}
+        for k in ("before", "after", "w_before", "w_after"):
+            if k in obs:
+                lean[k], impl[k] = out.get(k), obs[k]
+        if lean != impl:
+            ctx.disagree(f"flags2 {info['pass']}: flag / second application / measure differ from the pass", info, lean, impl)
+        elif c05.canon(out["model"]) != obs["canon"]:
+            ctx.disagree(f"flags2 {info['pass']}: result model differs from the pass at {c05.first_diff(c05.canon(out['model']), obs['canon'])}", info, None, None)
+        # hypotheses of the new theorems, evaluated on this case
+        if base == "identity":
+            ctx.count(f"flags2:identity:hyp-valid-and-identity-without-graphs={bool(out.get('idnb'))}")
+            if out.get("idnb") and (obs["flag2"] or not obs["canon2_same"]):
+                # C14_fix_identity on the real objects
+                ctx.fail("flags2/identity/not-idempotent", "well-formed model: applied to its own result the pass reports True / changes it", info)
+        if base == "cse" and out.get("flag"):
+            ctx.count(f"flags2:cse:hyp-no-identity-inserted={out.get('inserted') == 0}")
+            ctx.count(f"flags2:cse:hyp-no-stalled-identity={out.get('stalled') == 0}")
+            if out.get("stalled") == 0 and not out.get("w_after") < out.get("w_before"):
+                ctx.disagree("flags2 cse: the model's weight did not drop although the flag is up and nothing stalled", info, out.get("w_before"), out.get("w_after"))
+        if out.get("flag") and not out.get("after") < out.get("before") and not (base == "cse" and out.get("inserted")):
+            ctx.disagree(f"flags2 {info['pass']}: the model's measure did not drop although the flag is up", info, out.get("before"), out.get("after"))
+        ctx.count(f"flags2:{base}:sorted-stays-sorted={(not out.get('sorted')) or bool(out.get('sorted_after'))}")
+    elif m == "namefix":
+        ctx.count("concrete:namefix")
+        model = {k: out.get(k) for k in ("vnames", "nnames", "dicts", "initOf", "modified", "raised")}
+        impl = dict(obs)
+        if obs["raised"]:
+            model["modified"] = impl["modified"] = None
+        if model != impl:
+            ctx.disagree("namefix: names.fix (C15's model of the pass) differs from NameFixPass", info, model, impl)
+        wf = bool(out.get("scoped") and out.get("disjoint") and out.get("closed") and out.get("nodup"))
+        ctx.count(f"namefix:hyp-PassWF={wf}")
+        snd = info.get("second")
+        if wf and not obs["raised"] and snd is not None and (snd["modified"] is not False or not snd["same"]):
+            # C14_fix_namefix on the real objects (hypothesis evaluated by the driver)
+            ctx.fail("pass/NameFix/not-idempotent/spec", f"well-formed model: the second application gives {snd}", info)
     else:
         ctx.count(f"concrete:{m}")
+        if m == "flags" and "ssa" in out:
+            ctx.count(f"flags:dedup:hyp-ssa={out['ssa']}")
         keys = [k for k in obs]
         if any(out.get(k) != obs[k] for k in keys):
             ctx.disagree(f"{m}: model differs from the pass", info, {k: out.get(k) for k in keys}, obs)
@@ -2457,6 +2882,13 @@ def run(ctx: Ctx) -> None:
     jobs += [("flags", c) for c in _chunks([rng.randrange(10**9) for _ in range(ctx.pick(300, 3000))], 8)]
     jobs += [("sortflag", c) for c in _chunks([rng.randrange(10**9) for _ in range(ctx.pick(300, 3000))], 8)]
     jobs += [("dce", c) for c in _chunks([rng.randrange(10**9) for _ in range(ctx.pick(1500, 15000))], 8)]
+    # G (deepening round): flag + result of IdentityElimination / CSE / LiftSubgraphInitializers / OutputFix on C05's
+    # models, RemoveUnusedOpsets / RemoveUnusedFunctions on their transcriptions, NameFix on C15's model
+    jobs += [("flags2", c) for c in _chunks([rng.randrange(10**9) for _ in range(ctx.pick(400, 4000))], 16)]
+    jobs += [("sorted", c) for c in _chunks([rng.randrange(10**9) for _ in range(ctx.pick(400, 4000))], 8)]
+    jobs += [("opsets", c) for c in _chunks([rng.randrange(10**9) for _ in range(ctx.pick(300, 3000))], 8)]
+    jobs += [("unusedfn", c) for c in _chunks([rng.randrange(10**9) for _ in range(ctx.pick(300, 3000))], 8)]
+    jobs += [("namefix", c) for c in _chunks([rng.randrange(10**9) for _ in range(ctx.pick(600, 6000))], 8)]
     # D: every pass x {ok, lazy tensor raises, serialization raises, call raises}
     bitems = []
     for _ in range(ctx.pick(150, 1500)):
@@ -2538,6 +2970,16 @@ def replay(ctx: Ctx, obj: dict, _count: bool = True) -> None:
         reuse_case(part, case["reuse_seed"])
     elif isinstance(case, dict) and "funcseq_seed" in case:
         funcseq_case(part, case["funcseq_seed"])
+    elif isinstance(case, dict) and "flags2_seed" in case:
+        flags2_case(part, reqs, case["flags2_seed"])
+    elif isinstance(case, dict) and "sorted_seed" in case:
+        sorted_case(part, reqs, case["sorted_seed"])
+    elif isinstance(case, dict) and "opsets_seed" in case:
+        opsets_case(part, reqs, case["opsets_seed"])
+    elif isinstance(case, dict) and "unusedfn_seed" in case:
+        unusedfn_case(part, reqs, case["unusedfn_seed"])
+    elif isinstance(case, dict) and "namefix_seed" in case:
+        namefix_case(part, reqs, case["namefix_seed"])
     elif isinstance(case, dict) and "inits" in case:
         req, obs, fails = run_capi_real(case)
         for sig, what in fails:
